@@ -1850,6 +1850,9 @@ class _gpg_multivalued(_multivalued):
         except IndexError:
             sequence = kwargs.get("sequence", None)
         strict = kwargs.get("strict", None)
+        if strict is None and len(args) > 4:
+            # strict given positionally: (sequence, fields, _parsed, encoding, strict)
+            strict = args[4]
 
         if sequence is not None:
             # If the input is a unicode object or a file opened in text mode,
